@@ -1,5 +1,6 @@
 import GdcVerif.Model.J2kPacketHeader
 import GdcVerif.Model.T1
+import GdcVerif.Model.T1Pipe
 /-!
   GLUE between the proved layers of the reversible JPEG 2000 pipeline, single tile, single quality layer, one codeword
   segment per code-block (classic T1, code-block style 0): what `Encoder.buildTilePacketEncoder` /
@@ -13,13 +14,10 @@ import GdcVerif.Model.T1
   * `encTile`/`decTile` — packets back to back in the progression order both sides agree on (C19 `packet_sequence_agreement`)
   * `t1Encode`/`t1Decode` — encodeCodeBlock / decodeCodeBlock: pass count and zero-bit-plane hand-over around T1
 
-  T1 CONFIGURATION (the one step that is not a literal transcription): the Go pipeline runs T1 on `coeff << 6` with
-  `nmseDecFracBits = 6` and decodes with `SetOpenJPEGReconstruction(true)` at `maxBitplane = cblkNumbps` followed by
-  `/ 2` (normalizeOpenJPEGReversibleT1Coefficients); the model of T1 proved in C20 (`T1.encodeBlock` / `T1.decodeBlock`)
-  is the same coder with `nmseDecFracBits = 0` on `coeff`, plain reconstruction at `maxBitplane = cblkNumbps - 1`.
-  The glue calls the C20 model; that the two configurations produce the same bytes / the same coefficients is tied
-  by the correspondence lines `j2k-glue-*` (real encoder bytes = model bytes; real decoder output = model output),
-  not proved.
+  T1 CONFIGURATION: as in the Go pipeline — the encoder runs T1 on `coeff << 6` with `nmseDecFracBits = 6`
+  (`T1.encodeBlockF 6`), the decoder runs `DecodeWithBitplane` with `SetOpenJPEGReconstruction(true)` at
+  `maxBitplane = cblkNumbps` (`T1.decodeBlockOJ`) and halves the result (`T1.halveT`,
+  normalizeOpenJPEGReversibleT1Coefficients).  Models of C20 (`Model/T1Pipe.lean`), round trip `C20.t1_pipeline_roundtrip`.
 -/
 namespace J2kGlue
 open J2k J2kPH
@@ -154,11 +152,14 @@ structure Blk where
   coeffs : List Int
 deriving Repr, DecidableEq
 
-/-- codeBlockNumBps: `calculateMaxBitplane(coeff << 6) + 1 - 6`, 0 for an all-zero block -/
+/-- `cbData[i] <<= t1NMSEDecFracBits` (6) -/
+def shift6 (cs : List Int) : List Int := cs.map fun c => c * ((2 ^ 6 : Nat) : Int)
+
+/-- codeBlockNumBps on the shifted data: `calculateMaxBitplane + 1 - 6`, clamped at 0; 0 for an all-zero block -/
 def cblkNumbps (b : Blk) : Nat :=
-  match T1.findMaxBitplane (T1.padBlock b.w b.h b.coeffs) with
+  match T1.findMaxBitplane (T1.padBlock b.w b.h (shift6 b.coeffs)) with
   | none => 0
-  | some mb => mb + 1
+  | some m => m + 1 - 6
 
 /-- codeBlockPassLayout (classic) -/
 def passLayout (cblk nb : Nat) : Nat × Nat := (if cblk > 0 then 3 * cblk - 2 else 1, nb - cblk)
@@ -166,7 +167,7 @@ def passLayout (cblk nb : Nat) : Nat × Nat := (if cblk > 0 then 3 * cblk - 2 el
 /-- encodeCodeBlock + encodeSingleLayerCodeBlock: (numPasses, zeroBitPlanes, data); `none` = the T1 model panics -/
 def t1Encode (b : Blk) : Option (Nat × Nat × List Nat) :=
   let l := passLayout (cblkNumbps b) b.nb
-  match T1.encodeBlock b.w b.h b.orient 0 b.coeffs l.1 with
+  match T1.encodeBlockF 6 b.w b.h b.orient 0 (shift6 b.coeffs) l.1 with
   | .ok bytes => some (l.1, l.2, bytes)
   | _ => none
 
@@ -180,13 +181,12 @@ def estimateMaxBitplane (np zbp nb : Nat) : Int :=
   else -1   -- (the bit-depth fallback is not reachable with totalPasses > 0)
 
 /-- buildAndDecodeCodeBlocks / decodeCodeBlock for a block of `w × h`: zeros when not decoded (`shouldDecode`) or on a
-    T1 error; otherwise DecodeWithBitplane(data, numPasses, maxBitplane) [OpenJPEG reconstruction, then /2 ≙ the plain
-    model one bit-plane lower] -/
+    T1 error; otherwise DecodeWithBitplane(data, numPasses, maxBitplane) with OpenJPEG reconstruction, then `/= 2` -/
 def t1Decode (w h orient nb : Nat) (i : Incl) (data : List Nat) : Option (List Int) :=
   let mbp := estimateMaxBitplane i.numPasses i.zbp nb
   if data.isEmpty ∨ mbp < 0 then some (List.replicate (w * h) 0) else
-  match T1.decodeBlock w h orient 0 i.numPasses (mbp - 1) data with
-  | .ok out => some out
+  match T1.decodeBlockOJ w h orient 0 i.numPasses mbp data with
+  | .ok out => some (out.map T1.halveT)
   | .err => some (List.replicate (w * h) 0)
   | .panic => none
 
